@@ -65,3 +65,33 @@ func HarnessC15ParseStringInts() {
 	}
 	zzverif.Reached("c15-parsestring-end")
 }
+
+// HarnessC15FloatBoundaries: literals just inside and just outside the float32/float64 ranges for
+// float and complex targets (concrete probes: floating point is not solver-quantified here).
+func HarnessC15FloatBoundaries() {
+	type probe struct {
+		lit        string
+		fits32     bool
+		fits64     bool
+	}
+	probes := []probe{
+		{"3.4028234e+38", true, true}, {"3.5e+38", false, true}, {"-3.5e+38", false, true}, {"1e+40", false, true},
+		{"1.7976931348623157e+308", false, true}, {"1e+309", false, false}, {"-1e+400", false, false}, {"1.5", true, true},
+	}
+	p := probes[zzverif.Choose("probe", len(probes))]
+	switch zzverif.Choose("type", 4) {
+	case 0:
+		_, err := String(p.lit, reflect.TypeOf(float32(0)))
+		zzverif.Assert((err == nil) == p.fits32, "C15 float32: a literal outside the range was accepted (saturated to Inf) or one inside rejected: "+p.lit)
+	case 1:
+		_, err := String(p.lit, reflect.TypeOf(float64(0)))
+		zzverif.Assert((err == nil) == p.fits64, "C15 float64: a literal outside the range was accepted or one inside rejected: "+p.lit)
+	case 2:
+		_, err := String("("+p.lit+"+2i)", reflect.TypeOf(complex64(0)))
+		zzverif.Assert((err == nil) == p.fits32, "C15 complex64: a part outside the float32 range was accepted (saturated to Inf) or one inside rejected: "+p.lit)
+	case 3:
+		_, err := String("(1+"+p.lit+"i)", reflect.TypeOf(complex128(0)))
+		zzverif.Assert((err == nil) == p.fits64, "C15 complex128: a part outside the float64 range was accepted or one inside rejected: "+p.lit)
+	}
+	zzverif.Reached("c15-float-end")
+}
